@@ -218,6 +218,10 @@ def containsCrash (s : String) : Option String :=
   | _ :: k :: _ => some (String.ofList (k.toList.takeWhile Char.isAlpha))
   | _ => none
 
+/-- `VarInitializerVisitor.assignment_lines`: only names that can be user variables (one or two characters, optionally `$`)
+are cleared in the initialisation block - the guard that keeps the tool's own identifiers (pid, display, …) out of it -/
+def isUserName (v : String) : Bool := (v.endsWith "$" && v.length ≤ 3) || v.length ≤ 2
+
 /-- everything `convert` does after `BasicVisitor().visit(tree)`, up to (not including) the
 procedure bank.  `perm` stands for the order in which a Python `set` hands out its members (it
 depends on the hash seed): every set that reaches the output is passed through it. -/
@@ -254,7 +258,7 @@ def convertAstP (perm : List String → List String) (o : Options) (p0 : Prog) :
       let dimmed := dimmedNames evs
       let toAssign := sortStrings (perm ((varNames evs).filter (fun n => !dimmed.contains n)))
       if toAssign.isEmpty then p else
-      let keep := toAssign.filter (fun v => (v.endsWith "$" && v.length ≤ 3) || v.length ≤ 2)
+      let keep := toAssign.filter isUserName
       { p with pfx := p.pfx ++ [{ num := none, body := .stmts true (keep.map (fun v =>
           let isS := v.endsWith "$"
           Stmt.assign false (.var v isS) (.lit (if isS then .str "" else .flt "0.0") isS) [])) [] }] }
